@@ -128,6 +128,37 @@ def drv_ws_tokens(c, ctx, col):
     col.sample({"tokens": tokens, "variant": variant, "include_intercept": icpt})
 
 
+# every character that the regular-expression class \\s matches in the Basic Multilingual Plane (enumerated at start-up)
+WS_ALL = [chr(i) for i in range(0x10000) if re.match(r"\s", chr(i))]
+WS_SENTENCES = [["y", "~", "a", "+", "b"], ["a", ":", "b", "-", "1"], ["a", "*", "(", "b", "+", "c", ")"], ["a", "**", "2"], ["b", "%in%", "a"],
+                ["(", "a", "+", "b", ")", "/", "c"], ["`x y`", "+", "f(a)", "+", "{a+b}"], ["y", "~", "a", "|", "b"], [".", "-", "a"],
+                ["0", "+", "a"], ["2.5", ":", "a"], ["~", "a"], ["a"]]
+
+
+def drv_ws_unicode(c, ctx, col):
+    """one white-space character of the full \\s class at one token boundary (or at all of them); single spaces elsewhere"""
+    tokens = c.pick(WS_SENTENCES)
+    w = c.pick(WS_ALL)
+    nb = len(tokens) + 1                      # boundaries incl. before the first and after the last token
+    where = c.upto(nb)                        # nb = every boundary
+    out = []
+    for i in range(nb):
+        inner = 0 < i < len(tokens)
+        here = where == nb or where == i
+        sep = (w if here else (" " if inner else ""))
+        out.append(sep)
+        if i < len(tokens):
+            out.append(tokens[i])
+    variant = "".join(out)
+    avail = AVAIL if "." in tokens else None
+    try:
+        W.reference(tokens, include_intercept=True, avail=avail)
+    except (W.Reject, W.Unspec):
+        raise AssertionError("harness: sentence %r is not reference-accepted" % (tokens,))
+    check_ws(col, "ws-unicode U+%04X" % ord(w), tokens, variant, True, avail)
+    col.sample({"tokens": tokens, "white_space": "U+%04X" % ord(w), "variant": ascii(variant)})
+
+
 BIN = ["+", "-", ":", "*", "/", "%in%", "**"]
 
 
@@ -228,7 +259,20 @@ def drv_names_special(c, ctx, col):
     check_name(col, name, form)
 
 
-def check_name(col, name, form):
+NUMERIC_NAMES = ["0", "1", "2", "00", "01", "10", "2.5", "0.0", ".5", "1.", "1e3", "1E-2", "0x1", "1_0", "1j", "-1", "+0", "1 ", " 0", "0 0",
+                 "\u0661", "\uff10"]
+
+
+def drv_names_numeric(c, ctx, col):
+    """names that read like numeric literals; parsed and materialized WITHOUT the implicit intercept so that the known
+    conflation of a name equal to a literal present in the same formula (K2 under C01) is not reported a second time"""
+    name = c.pick(NUMERIC_NAMES)
+    form = c.pick(NAME_FORMS)
+    col.interesting()
+    check_name(col, name, form, no_intercept=True)
+
+
+def check_name(col, name, form, no_intercept=False):
     import unicodedata
 
     import pandas as pd
@@ -268,7 +312,11 @@ def check_name(col, name, form):
         data[folded] = [-1.0, -2.0, -3.0]   # a different column that the name must not be confused with
     df = pd.DataFrame(data)
     try:
-        mm = model_matrix(formula, df, context={"double": lambda x: 2 * x})
+        if no_intercept:
+            from formulaic import Formula
+            mm = Formula(formula, _parser=parser_for(False)).get_model_matrix(df, context={"double": lambda x: 2 * x})
+        else:
+            mm = model_matrix(formula, df, context={"double": lambda x: 2 * x})
         cols = [[round(float(x), 9) for x in mm.iloc[:, j]] for j in range(mm.shape[1]) if mm.columns[j] != "Intercept"]
     except Exception as e:  # noqa
         col.violation(key, {"formula": formula, "name": name, "columns_in_data": list(data),
@@ -288,6 +336,8 @@ def name_sig(name, form, symptom):
     import keyword
     import unicodedata
     where = "in-python-fragment" if form in ("call", "brace", "brace-twice") else "as-operand"
+    if re.fullmatch(r"\s*[-+]?(\d[\d_]*\.?\d*|\.\d+)([eE][-+]?\d+)?j?\s*|0x[0-9a-f]+|\d+ \d+", name):
+        return "%s:%s[name-reads-like-a-numeric-literal]" % (symptom, where)
     # one signature per class of name that cannot be spelled as a Python identifier although it looks like one
     if where == "in-python-fragment":
         if keyword.iskeyword(name):
@@ -758,6 +808,11 @@ def subchecks(tier, seed):
         Sub("names", drv_names, {"L": 3 if quick else 4, "forms_longest": [f for f in NAME_FORMS if f[0] in ("alone", "star", "call", "brace-twice")]},
             shard_depth=3, bounds={"alphabet": NAME_CHARS, "max_length": 3 if quick else 4, "forms": [f[1] for f in NAME_FORMS],
                                    "forms_at_the_maximal_length": ["`%s`", "`%s`*zz", "double(`%s`)", "{`%s` * `%s`}"]}),
+        Sub("ws-unicode", drv_ws_unicode, {}, shard_depth=2,
+            bounds={"white_space": ["U+%04X" % ord(w) for w in WS_ALL], "sentences": [" ".join(t) for t in WS_SENTENCES],
+                    "placement": "the character alone at one boundary (incl. leading / trailing), single spaces elsewhere; and at every boundary"}),
+        Sub("names-numeric", drv_names_numeric, {}, shard_depth=1,
+            bounds={"names": NUMERIC_NAMES, "forms": [f[1] for f in NAME_FORMS], "parser": "include_intercept=False (see K2 of C01)"}),
         Sub("names-special", drv_names_special, {"names": special_names(2 if quick else 3), "L": 2 if quick else 3,
                                                  "forms_longest": [f for f in NAME_FORMS if f[0] in ("alone", "call", "brace-twice")]},
             shard_depth=1, bounds={"names": "all Python keywords and soft keywords; every string of length <= %d over %r"
